@@ -297,9 +297,12 @@ def main(tier, seed):
     rng = random.Random(seed)
     d = lib.casedir(PID)
     insts = lib.load_corpus(PID) + [instgen.gen_instance(rng) for _ in range(n)]
+    if os.environ.get("VERIF_REPLAY"):
+        # a replay of the calendar family (Cal.v vs rapid_time) carries no instance: only that family is re-run
+        insts = [i for i in insts if "vehicleTypes" in i]
     # reference level: a fifth as many listings with unusual or unresolvable references
     rrng = random.Random(seed * 31 + 17)
-    for base in list(insts[-max(1, n // 5):]):
+    for base in ([] if os.environ.get("VERIF_REPLAY") else list(insts[-max(1, n // 5):])):
         insts += ref_variants(rrng, base)
     results = lib.pmap(run_case, [(d, k, inst) for k, inst in enumerate(insts)])
     # correspondence differs somewhere but no observation of the property differs: search for a failing input
